@@ -23,7 +23,7 @@ from pybrops.popgen.bvmat.DenseGenomicEstimatedBreedingValueMatrix import DenseG
 from pybrops.core.mat.DenseScaledMatrix import DenseScaledMatrix
 
 PROP = "C15"
-RUNS = {"quick": 40000, "thorough": 1500000}
+RUNS = {"quick": 80000, "thorough": 1500000}
 WALL = {"quick": 200, "thorough": 2400}
 RULE = ("scenario = BV class, raw matrix (1-8 taxa, 1-3 traits; column styles: plain, constant, with NaN, offset up to 1e9, tiny/huge scale), "
         "label presence, and a history of <= 10 steps: select / delete|remove / insert|incorp / adjoin|append / concat on the taxa axis (operand a BV "
